@@ -829,3 +829,262 @@ func c05AtomMustPass(a RetAtom, c *cut) bool {
 	}
 	return AtomMustPass(a, c)
 }
+
+// ---------------------------------------------------------------- interprocedural helpers
+//
+// Rules are evaluated on an entry function (the "root") and on the unexported
+// same-package helpers it calls statically (depth <= 3).  A c05Env is one node
+// of that call tree; values are resolved towards the root through parameter
+// passing, and "every path passes X" is decided with helper summaries: a call
+// to a helper counts as passing X when every path through the helper passes X.
+
+type c05Env struct {
+	Fn     *ssa.Function
+	Call   ssa.CallInstruction // the call in Parent.Fn that enters Fn; nil at the root and for closures
+	Parent *c05Env
+}
+
+func c05Root(fn *ssa.Function) *c05Env { return &c05Env{Fn: fn} }
+
+func (e *c05Env) isRoot() bool { return e.Parent == nil }
+
+func (e *c05Env) root() *c05Env {
+	for e.Parent != nil {
+		e = e.Parent
+	}
+	return e
+}
+
+func (e *c05Env) depth() int {
+	n := 0
+	for x := e; x.Parent != nil; x = x.Parent {
+		n++
+	}
+	return n
+}
+
+// c05Helper: the same-package function (with a body) a call enters statically.
+func c05Helper(call ssa.CallInstruction, from *ssa.Function) *ssa.Function {
+	g := StaticCallee(call)
+	if g == nil || g == from || len(g.Blocks) == 0 || !inModule(g) || fnPkgPath(g) != fnPkgPath(from) {
+		return nil
+	}
+	return g
+}
+
+// up resolves v towards the root: a parameter of a helper (or a local copy of
+// it, or a variable captured from an enclosing function on the chain) is
+// replaced by the argument at the call site.  It returns the value and the
+// node in whose function it lives.
+func (e *c05Env) up(v ssa.Value) (ssa.Value, *c05Env) {
+	cur := e
+	for i := 0; i < 12; i++ {
+		w := c05Unspill(v)
+		var p *ssa.Parameter
+		if q, ok := w.(*ssa.Parameter); ok {
+			p = q
+		} else if q := c05ParamOf(v); q != nil {
+			p = q
+		}
+		if p == nil {
+			return w, cur
+		}
+		owner := cur
+		for owner != nil && owner.Fn != p.Parent() {
+			owner = owner.Parent
+		}
+		if owner == nil {
+			return p, cur
+		}
+		if owner.Parent == nil || owner.Call == nil {
+			return p, owner
+		}
+		idx := -1
+		for k, q := range owner.Fn.Params {
+			if q == p {
+				idx = k
+			}
+		}
+		args := owner.Call.Common().Args
+		if idx < 0 || idx >= len(args) {
+			return p, owner
+		}
+		v, cur = args[idx], owner.Parent
+	}
+	return v, cur
+}
+
+// upParam: the root parameter v denotes, or nil.
+func (e *c05Env) upParam(v ssa.Value) *ssa.Parameter {
+	w, at := e.up(v)
+	if p, ok := w.(*ssa.Parameter); ok && at.isRoot() {
+		return p
+	}
+	if at.isRoot() {
+		if p := c05ParamOf(w); p != nil && p.Parent() == at.Fn {
+			return p
+		}
+	}
+	return nil
+}
+
+// c05TreeEnvs lists the root and the helper nodes below it (closures included).
+func c05TreeEnvs(root *c05Env, maxDepth int) []*c05Env {
+	out := []*c05Env{root}
+	var rec func(e *c05Env)
+	rec = func(e *c05Env) {
+		if e.depth() >= maxDepth {
+			return
+		}
+		AllInstrs(e.Fn, func(in ssa.Instruction) {
+			switch x := in.(type) {
+			case ssa.CallInstruction:
+				if h := c05Helper(x, e.Fn); h != nil {
+					onChain := false
+					for a := e; a != nil; a = a.Parent {
+						if a.Fn == h {
+							onChain = true
+						}
+					}
+					if !onChain {
+						ch := &c05Env{Fn: h, Call: x, Parent: e}
+						out = append(out, ch)
+						rec(ch)
+					}
+				}
+			case *ssa.MakeClosure:
+				ch := &c05Env{Fn: x.Fn.(*ssa.Function), Parent: e}
+				out = append(out, ch)
+				rec(ch)
+			}
+		})
+	}
+	rec(root)
+	return out
+}
+
+type c05PassSpec struct {
+	Instr func(in ssa.Instruction, e *c05Env) bool
+	Edges func(e *c05Env) []Edge
+}
+
+// c05PassCut: the instructions/edges of e.Fn that count as "passing": direct
+// matches and calls of helpers every path of which passes.
+func c05PassCut(e *c05Env, sp c05PassSpec) *cut {
+	ct := newCut()
+	AllInstrs(e.Fn, func(in ssa.Instruction) {
+		if sp.Instr != nil && sp.Instr(in, e) {
+			ct.Instr(in)
+			return
+		}
+		if call, ok := in.(*ssa.Call); ok && e.depth() < 3 {
+			if h := c05Helper(call, e.Fn); h != nil {
+				for a := e; a != nil; a = a.Parent {
+					if a.Fn == h {
+						return
+					}
+				}
+				if c05AlwaysPasses(&c05Env{Fn: h, Call: call, Parent: e}, sp) {
+					ct.Instr(in)
+				}
+			}
+		}
+	})
+	if sp.Edges != nil {
+		ct.Edges(sp.Edges(e)...)
+	}
+	return ct
+}
+
+// c05AlwaysPasses: every path from the entry of e.Fn to a return passes.
+func c05AlwaysPasses(e *c05Env, sp c05PassSpec) bool {
+	ct := c05PassCut(e, sp)
+	if len(ct.instrs) == 0 && len(ct.edges) == 0 {
+		return false
+	}
+	n := 0
+	for _, r := range Returns(e.Fn) {
+		if !ReachableFromEntry(r) {
+			continue
+		}
+		n++
+		if reach(e.Fn.Blocks[0], 0, r, ct) {
+			return false
+		}
+	}
+	return n > 0
+}
+
+func c05CutInstrs(ct *cut) []ssa.Instruction {
+	var out []ssa.Instruction
+	for in := range ct.instrs {
+		out = append(out, in)
+	}
+	return out
+}
+
+// c05SamePlace: two values denote the same thing: identical after resolution,
+// or loads of the same field path of a parameter (index.Manifests read twice).
+func c05SamePlace(a, b ssa.Value) bool {
+	if SameValue(a, b) {
+		return true
+	}
+	pa, pb := c05LoadPath(a), c05LoadPath(b)
+	return pa == pb && strings.HasPrefix(pa, "P:") && strings.HasSuffix(pa, "*")
+}
+
+// c05SliceLoop finds the loop of fn that visits every element of the slice
+// satisfying isS, in any of the forms `for range s`, `for i := range s`,
+// `for i := 0; i < len(s); i++`.  idx are the values that index the current
+// element.
+func c05SliceLoop(fn *ssa.Function, isS func(v ssa.Value) bool) (loop *Loop, idx map[ssa.Value]bool, body Edge) {
+	for _, l := range Loops(fn) {
+		if r, i, b, _, ok := l.RangeIndex(); ok && isS(r) {
+			return l, map[ssa.Value]bool{i: true}, b
+		}
+		h := l.Header
+		if len(h.Instrs) == 0 {
+			continue
+		}
+		ifi, isIf := h.Instrs[len(h.Instrs)-1].(*ssa.If)
+		if !isIf {
+			continue
+		}
+		cond, t, _ := ifEdges(ifi)
+		bo, isBin := cond.(*ssa.BinOp)
+		if !isBin {
+			continue
+		}
+		x, bound := bo.X, bo.Y
+		switch bo.Op {
+		case token.LSS:
+		case token.GTR:
+			x, bound = bo.Y, bo.X
+		default:
+			continue
+		}
+		ln, isLen := bound.(*ssa.Call)
+		if !isLen || CalleeName(ln) != "builtin:len" || !isS(ln.Call.Args[0]) {
+			continue
+		}
+		phi, isPhi := x.(*ssa.Phi)
+		if !isPhi || phi.Block() != h || len(phi.Edges) != 2 {
+			continue
+		}
+		okInit, okStep := false, false
+		for _, ev := range phi.Edges {
+			if k, isK := constInt(ev); isK && k == 0 {
+				okInit = true
+			}
+			if inc, isInc := ev.(*ssa.BinOp); isInc && inc.Op == token.ADD && inc.X == ssa.Value(phi) {
+				if k, isK := constInt(inc.Y); isK && k == 1 {
+					okStep = true
+				}
+			}
+		}
+		if okInit && okStep && l.Blocks[t.To] {
+			return l, map[ssa.Value]bool{phi: true}, t
+		}
+	}
+	return nil, nil, Edge{}
+}
